@@ -31,6 +31,7 @@ import RosedVerif.Model.GenEq.TwoCol
 import RosedVerif.Model.GenEq.DefTable
 import RosedVerif.Model.GenEq.AlignOpts
 import RosedVerif.Model.GenEq.JustifyOpts
+import RosedVerif.Model.GenEq.GemSplit
 import RosedVerif.Model.GenEq.Gem
 import RosedVerif.Model.GenEq.GemOps
 import RosedVerif.Model.GenEq.GemInv
